@@ -1,4 +1,5 @@
 import M3d.Lemmas.CollideGeom
+import Mathlib.Tactic.Tauto
 /-!
 # C07 — the slab method (`rayCollisionWithBounds`, `Rect.RayCollisions`) over a linear ordered field
 -/
@@ -49,6 +50,22 @@ theorem axIn_iff (a : Ax K) (t : K) (hd : a.d ≠ 0) (hbox : a.lo ≤ a.hi) :
       exact div_le_div_of_nonneg_right (by linarith) (le_of_lt hpos)
     have hlt : ¬ t2 < t1 := not_lt.2 h12
     simp only [hlt, if_false]; exact Iff.rfl
+
+theorem lo_some (N s1 t : K) :
+    (∀ m, (if N < s1 then some s1 else some N) = some m → m ≤ t) ↔ N ≤ t ∧ s1 ≤ t := by
+  by_cases h : N < s1
+  · simp only [h, if_true, Option.some.injEq, forall_eq']
+    exact ⟨fun h1 => ⟨by linarith, h1⟩, fun h1 => h1.2⟩
+  · simp only [h, if_false, Option.some.injEq, forall_eq']
+    exact ⟨fun h1 => ⟨h1, by linarith [not_lt.1 h]⟩, fun h1 => h1.1⟩
+
+theorem hi_some (N s2 t : K) :
+    (∀ m, (if s2 < N then some s2 else some N) = some m → t ≤ m) ↔ t ≤ N ∧ t ≤ s2 := by
+  by_cases h : s2 < N
+  · simp only [h, if_true, Option.some.injEq, forall_eq']
+    exact ⟨fun h1 => ⟨by linarith, h1⟩, fun h1 => h1.2⟩
+  · simp only [h, if_false, Option.some.injEq, forall_eq']
+    exact ⟨fun h1 => ⟨h1, by linarith [not_lt.1 h]⟩, fun h1 => h1.1⟩
 
 /-- **The slab loop computes the parameter interval of the box**: for `t ≥ 0`, `t` is between the returned
 bounds iff it was between the incoming bounds and the ray point at `t` satisfies every axis constraint.
@@ -106,66 +123,11 @@ theorem slabLoop_spec : ∀ (as : List (Ax K)) (mn mx : Option K) (t : K), 0 ≤
           linarith
       · simp only [hs2neg, if_false]
         rw [slabLoop_spec as _ _ t ht hboxas]
-        have hW : Within (match mn with | none => some s1 | some m => if m < s1 then some s1 else some m)
-            (match mx with | none => some s2 | some m => if s2 < m then some s2 else some m) t ↔
-            Within mn mx t ∧ s1 ≤ t ∧ t ≤ s2 := by
-          unfold Within
-          cases mn with
-          | none =>
-            cases mx with
-            | none => simp
-            | some M =>
-              by_cases h : s2 < M
-              · simp only [h, if_true]
-                constructor
-                · rintro ⟨h1, h2⟩
-                  have := h2 s2 rfl
-                  exact ⟨⟨fun m hm => by cases hm, fun m hm => by cases hm; linarith⟩, h1 s1 rfl, this⟩
-                · rintro ⟨⟨_, h2⟩, h3, h4⟩
-                  exact ⟨fun m hm => by cases hm; exact h3, fun m hm => by cases hm; exact h4⟩
-              · simp only [h, if_false]
-                constructor
-                · rintro ⟨h1, h2⟩
-                  have := h2 M rfl
-                  exact ⟨⟨fun m hm => by cases hm, fun m hm => by cases hm; exact this⟩, h1 s1 rfl,
-                    by linarith [not_lt.1 h]⟩
-                · rintro ⟨⟨_, h2⟩, h3, h4⟩
-                  exact ⟨fun m hm => by cases hm; exact h3, fun m hm => by cases hm; exact h2 M rfl⟩
-          | some N =>
-            have hN : ∀ (P : Prop), ((∀ m, (if N < s1 then some s1 else some N) = some m → m ≤ t) ↔ (N ≤ t ∧ s1 ≤ t)) := by
-              intro _
-              by_cases h : N < s1
-              · simp only [h, if_true]
-                exact ⟨fun h1 => ⟨by linarith [h1 s1 rfl], h1 s1 rfl⟩, fun h1 m hm => by cases hm; exact h1.2⟩
-              · simp only [h, if_false]
-                exact ⟨fun h1 => ⟨h1 N rfl, by linarith [h1 N rfl, not_lt.1 h]⟩, fun h1 m hm => by cases hm; exact h1.1⟩
-            cases mx with
-            | none =>
-              simp only [hN True]
-              constructor
-              · rintro ⟨⟨h1, h2⟩, h3⟩
-                exact ⟨⟨fun m hm => by cases hm; exact h1, fun m hm => by cases hm⟩, h2, h3 s2 rfl⟩
-              · rintro ⟨⟨h1, _⟩, h3, h4⟩
-                exact ⟨⟨h1 N rfl, h3⟩, fun m hm => by cases hm; exact h4⟩
-            | some M =>
-              simp only [hN True]
-              by_cases h : s2 < M
-              · simp only [h, if_true]
-                constructor
-                · rintro ⟨⟨h1, h2⟩, h3⟩
-                  have := h3 s2 rfl
-                  exact ⟨⟨fun m hm => by cases hm; exact h1, fun m hm => by cases hm; linarith⟩, h2, this⟩
-                · rintro ⟨⟨h1, _⟩, h3, h4⟩
-                  exact ⟨⟨h1 N rfl, h3⟩, fun m hm => by cases hm; exact h4⟩
-              · simp only [h, if_false]
-                constructor
-                · rintro ⟨⟨h1, h2⟩, h3⟩
-                  have := h3 M rfl
-                  exact ⟨⟨fun m hm => by cases hm; exact h1, fun m hm => by cases hm; exact this⟩, h2,
-                    by linarith [not_lt.1 h]⟩
-                · rintro ⟨⟨h1, h2⟩, h3, h4⟩
-                  exact ⟨⟨h1 N rfl, h3⟩, fun m hm => by cases hm; exact h2 M rfl⟩
-        rw [hW]
+        refine Iff.trans (and_congr_left' (b := Within mn mx t ∧ s1 ≤ t ∧ t ≤ s2) ?_) ?_
+        · unfold Within
+          cases mn <;> cases mx <;>
+            simp only [lo_some, hi_some, Option.some.injEq, forall_eq', reduceCtorEq, false_implies,
+              implies_true, true_and, and_true] <;> tauto
         constructor
         · rintro ⟨⟨h1, h2, h3⟩, h4⟩
           exact ⟨h1, fun a' ha' => by
@@ -198,10 +160,10 @@ theorem rect_interval (lo hi o d : V3 K) (hbox : lo.x ≤ hi.x ∧ lo.y ≤ hi.y
   simp only [Within] at this
   constructor
   · intro hin
-    have := this.2 ⟨⟨fun m hm => by cases hm, fun m hm => by cases hm⟩, hin⟩
+    have := this.2 ⟨⟨(fun m hm => by cases hm), (fun m hm => by cases hm)⟩, hin⟩
     exact ⟨this.1 mn rfl, this.2 mx rfl⟩
   · rintro ⟨h1, h2⟩
-    exact (this.1 ⟨fun m hm => by cases hm; exact h1, fun m hm => by cases hm; exact h2⟩).2
+    exact (this.1 ⟨(fun m hm => by cases hm; exact h1), (fun m hm => by cases hm; exact h2)⟩).2
 
 /-- what `Rect.RayCollisions` reports, in terms of the slab bounds -/
 theorem rectTs_eq (lo hi o d : V3 K) (mn mx : K)
